@@ -938,6 +938,24 @@ pub proof fn lemma_contains_to_set()
         }),
 //@ end
 
+// ---------------- GetPeerID / GetMultiaddrs (queries: any caller, nothing changes, the stored field is returned) ----------------
+//@ item actors/miner/src/types.rs GetPeerIDReturn
+//@ item actors/miner/src/types.rs GetMultiaddrsReturn
+//@ fn actors/miner/src/lib.rs Actor::get_peer_id free
+    ensures
+        *final(rt) == (Rt { validated: final(rt).validated, ..*old(rt) }),
+        /*C11*/ r.is_ok() ==> final(rt).validated@.is_some(),
+        r.is_ok() ==> info_of(rt_state::<State>(old(rt).state_id@)).is_some()
+            && r->Ok_0.peer_id == info_of(rt_state::<State>(old(rt).state_id@))->Some_0.peer_id,
+//@ end
+//@ fn actors/miner/src/lib.rs Actor::get_multiaddresses free
+    ensures
+        *final(rt) == (Rt { validated: final(rt).validated, ..*old(rt) }),
+        /*C11*/ r.is_ok() ==> final(rt).validated@.is_some(),
+        r.is_ok() ==> info_of(rt_state::<State>(old(rt).state_id@)).is_some()
+            && r->Ok_0.multi_addrs == info_of(rt_state::<State>(old(rt).state_id@))->Some_0.multi_address,
+//@ end
+
 // ---------------- ChangePeerID / ChangeMultiaddrs ----------------
 //@ item actors/miner/src/types.rs ChangePeerIDParams
 //@ item actors/miner/src/types.rs ChangeMultiaddrsParams
